@@ -438,7 +438,15 @@ def rule_r8(ctx):
     c11.rule_r4(ctx, rid="C06.R8")
 
 
-RULES = [rule_r1, rule_r2, rule_r3, rule_r4, rule_r5, rule_r7, rule_r8]
+def rule_r9(ctx):
+    """Shared with C03.R1 (a refusal's response never announces keep-alive while it closes) and C03.R8 (the close after
+    an error response waits for the whole response to be flushed: the client gets a complete, well-formed 4xx)."""
+    from . import c03
+    c03.rule_r1(ctx, rid="C06.R9")
+    c03.rule_r8(ctx, rid="C06.R9")
+
+
+RULES = [rule_r1, rule_r2, rule_r3, rule_r4, rule_r5, rule_r7, rule_r8, rule_r9]
 
 from ..selftest import M, T, V  # noqa: E402
 
